@@ -173,7 +173,7 @@ theorem save_load_roundtrip (realspec maxbucket : Int) (t : Tree) (extra : List 
 def exTree : Tree := { bucket := 2, numpoints := 3, cost := 2, nodes := [.leaf [1, 2], .inner 0 0 0 (-1) 1 2 0] }
 example : WellFormed 10 exTree :=
   ⟨by decide, by decide, by decide, by decide,
-   ⟨⟨by decide, by intro ls h; cases h; rfl⟩, ⟨⟨by decide, by intro ls h; cases h⟩, trivial⟩⟩⟩
+   ⟨⟨by decide, by intro ls h; cases h; rfl⟩, ⟨⟨by decide, by intro ls h; cases h⟩, trivial⟩⟩, by decide⟩
 example : load (-63) 10 (save (-63) exTree) = .ok exTree := by decide
 
 /-- `Load(Save(t)) = t` on the binary layout as bytes (magic string, six 32-bit header words, per node the index and either
@@ -185,13 +185,14 @@ theorem save_load_roundtrip_binary (realspec maxbucket : Int) (t : Tree) (extra 
   loadBin_saveBin realspec maxbucket t extra h hrs hnp hcost hmb hr
 example : loadBin (-63) 10 (saveBin (-63) exTree) = .ok exTree := by decide
 
-/-- everything `Load` accepts passes the header checks and `Node::Check` *with the node's own position as the bound on
+/-- everything `Load` accepts passes the header checks, `Node::Check` *with the node's own position as the bound on
     its child pointers* (fix 49e729b): in particular children are stored before their parents, so the child pointers of
-    an accepted file cannot form a cycle -/
+    an accepted file cannot form a cycle — and (fix 90dea91) no node index is named twice as a child -/
 theorem load_rejects (realspec maxbucket : Int) (toks : List Int) (t : Tree) (h : load realspec maxbucket toks = .ok t) :
     0 ≤ t.bucket ∧ t.bucket ≤ maxbucket ∧ (t.nodes.length : Int) ≤ t.numpoints ∧ 0 ≤ t.cost ∧
     (∀ (j : Nat) (n : Node), t.nodes[j]? = some n → nodeCheck t.numpoints (j : Int) n = true) ∧
-    (∀ (j : Nat) v lo0 up0 c0 lo1 up1 c1, t.nodes[j]? = some (Node.inner v lo0 up0 c0 lo1 up1 c1) → c0 < j ∧ c1 < j ∧ (v : Int) < t.numpoints) := by
+    (∀ (j : Nat) v lo0 up0 c0 lo1 up1 c1, t.nodes[j]? = some (Node.inner v lo0 up0 c0 lo1 up1 c1) → c0 < j ∧ c1 < j ∧ (v : Int) < t.numpoints) ∧
+    (children t.nodes).Nodup := by
   match toks, h with
   | [], h | [_], h | [_, _], h | [_, _, _], h | [_, _, _, _], h | [_, _, _, _, _], h => simp [load] at h
   | version1 :: realspec1 :: bucket :: numpoints :: treesize :: cost :: toks', h =>
@@ -211,16 +212,16 @@ theorem load_rejects (realspec maxbucket : Int) (toks : List Int) (t : Tree) (h 
     by_cases h5 : (!decide (0 ≤ cost)) = true
     · rw [if_pos h5] at h; cases h
     rw [if_neg h5] at h
-    cases hns : loadNodes bucket.toNat numpoints treesize.toNat 0 toks' with
+    cases hns : loadNodes bucket.toNat numpoints treesize.toNat 0 [] toks' with
     | error e => rw [hns] at h; cases h
     | ok ns =>
       rw [hns] at h
       cases h
-      obtain ⟨hlen, hall⟩ := loadNodes_ok bucket.toNat numpoints treesize.toNat 0 toks' ns hns
+      obtain ⟨hlen, hall, hnd, _⟩ := loadNodes_ok bucket.toNat numpoints treesize.toNat 0 [] toks' ns hns
       simp only [Bool.not_eq_true', Bool.and_eq_false_iff, decide_eq_false_iff_not, not_or, not_not] at h3 h4 h5
       have hnode : ∀ (j : Nat) (n : Node), ns[j]? = some n → nodeCheck numpoints (j : Int) n = true := by
         intro j n hj; have := hall j n hj; simpa using this
-      refine ⟨h3.1, h3.2, ?_, h5, hnode, ?_⟩
+      refine ⟨h3.1, h3.2, ?_, h5, hnode, ?_, hnd⟩
       · show (ns.length : Int) ≤ numpoints
         rw [hlen]; omega
       · intro j v lo0 up0 c0 lo1 up1 c1 hj
@@ -228,6 +229,57 @@ theorem load_rejects (realspec maxbucket : Int) (toks : List Int) (t : Tree) (h 
         simp only [nodeCheck, Bool.and_eq_true, decide_eq_true_eq] at this
         show c0 < (j : Int) ∧ c1 < (j : Int) ∧ (v : Int) < numpoints
         omega
+
+/-- **every accepted file is a forest**: in the directed graph "node `j` → its non-negative child pointers" of a file that
+    `Load` accepts, (i) every edge goes to a *smaller* index inside the file (so there is no cycle), (ii) no node has two
+    parents, and (iii) the two child pointers of a node are different.  (Hence the nodes reachable from the root — the last
+    node — form a tree and `Search` looks at each of them at most once: the exponential blow-up of finding F53 is excluded
+    for every accepted file.)
+    What is still missing for "`Load` ⇒ `TreeInv`" — and cannot be decided by `Load`, which does not see the points:
+    that the bounds enclose the distances (`lower[l] ≤ d(v, p) ≤ upper[l]` for the points `p` below child `l`), that every
+    point index `0 … numpoints−1` occurs exactly once (indices may repeat or be absent in an accepted file, and nodes not
+    reachable from the root may exist), and that a bucket node of a file with `bucket = 0` is never empty. -/
+theorem load_is_forest (realspec maxbucket : Int) (toks : List Int) (t : Tree) (h : load realspec maxbucket toks = .ok t) :
+    (∀ (j : Nat) (n : Node) (c : Int), t.nodes[j]? = some n → c ∈ kids n → 0 ≤ c ∧ c < j) ∧
+    (∀ (j1 j2 : Nat) (n1 n2 : Node) (c : Int), t.nodes[j1]? = some n1 → t.nodes[j2]? = some n2 → c ∈ kids n1 → c ∈ kids n2 → j1 = j2) ∧
+    (∀ (j : Nat) v lo0 up0 c0 lo1 up1 c1, t.nodes[j]? = some (Node.inner v lo0 up0 c0 lo1 up1 c1) → 0 ≤ c0 → c0 ≠ c1) := by
+  obtain ⟨_, _, _, _, _, hlt, hnd⟩ := load_rejects realspec maxbucket toks t h
+  refine ⟨?_, ?_, ?_⟩
+  · intro j n c hj hc
+    cases n with
+    | leaf ls => simp [kids] at hc
+    | inner v lo0 up0 c0 lo1 up1 c1 =>
+      have := hlt j v lo0 up0 c0 lo1 up1 c1 hj
+      simp only [kids, List.mem_append] at hc
+      rcases hc with hc | hc
+      · by_cases h0 : c0 < 0
+        · simp [h0] at hc
+        · simp only [h0, if_false, List.mem_singleton] at hc; subst hc; omega
+      · by_cases h1 : c1 < 0
+        · simp [h1] at hc
+        · simp only [h1, if_false, List.mem_singleton] at hc; subst hc; omega
+  · intro j1 j2 n1 n2 c h1 h2 c1 c2
+    exact parent_unique hnd h1 h2 c1 c2
+  · intro j v lo0 up0 c0 lo1 up1 c1 hj h0 e
+    subst e
+    have hk : (kids (Node.inner v lo0 up0 c0 lo1 up1 c0)).Nodup := by
+      have hsub : ∀ (ns : List Node) (j : Nat) (n : Node), ns[j]? = some n → (children ns).Nodup → (kids n).Nodup := by
+        intro ns
+        induction ns with
+        | nil => intro j n hj; simp at hj
+        | cons m ms ih =>
+          intro j n hj hn
+          simp only [children, List.nodup_append] at hn
+          cases j with
+          | zero => simp at hj; subst hj; exact hn.1
+          | succ j => simp at hj; exact ih j n hj hn.2.1
+      exact hsub _ j _ hj hnd
+    have h0' : ¬ c0 < 0 := by omega
+    simp [kids, h0'] at hk
+
+/-- a file in which two nodes name the same child is rejected (the DAG image of finding F53, 3 nodes) -/
+example : load (-63) 10 [1, -63, 0, 3, 3, 0,  0, 0, 0, -1, 0, 0, -1,  1, 0, 5, 0, 5, 9, -1,  2, 0, 5, 0, 5, 9, 1] =
+    .error "Bad child pointers" := by decide
 
 /-! ## nearest neighbour: the search -/
 
